@@ -1,7 +1,11 @@
 """C10 Compiler output and diagnostics are deterministic.
 
-Domain: a seeded corpus of accepted programs (GenProg) and rejected programs (near-miss mutants,
-deliberately including programs with >= 2 independent errors of the same kind).  Each corpus is
+Domain: a seeded corpus of accepted programs (GenProg), rejected programs (near-miss mutants,
+deliberately including programs with >= 2 independent errors of the same kind) and a "comptime" family:
+programs that embed Python values (`comptime(V)` / `py(V)` over representable and unrepresentable
+module-level values, in synthesised / checked / argument / operand positions), call functions with
+`T @ comptime` parameters (str, int, bool, float, tuple, generic; monomorphised per argument tuple, also
+through each other), or put several comptime parameters on an entry point / a declaration.  Each corpus is
 compiled in K fresh interpreters that differ in PYTHONHASHSEED and in heap layout (a drawn amount
 of garbage allocated first), and in-process under drawn worklist schedules of the dataflow
 analyses (a `set` subclass injected into cfg/analysis.py).  Oracle (metamorphic): identical
@@ -514,8 +518,11 @@ def worker(ctx):
 
 SPEC = harness.Spec(
     PROP, worker, replay,
-    rule=("per shard a corpus of generated programs (half accepted GenProg programs, half 2-4-fold near-miss mutants incl. snippets with "
-          "two or three variables mistyped / undefined at one join and several leaked qubits) is compiled in K fresh interpreters with "
+    rule=("per shard a corpus of generated programs (3/14 snippets with two to four variables mistyped / undefined at one join or several "
+          "leaked qubits, 3/14 accepted GenProg programs, 4/14 2-4-fold near-miss mutants, 4/14 comptime family: accepted programs whose "
+          "functions are monomorphised over str/int/bool/float/tuple/generic comptime arguments and that embed Python values, rejected "
+          "programs whose first error concerns a comptime(...) value - class instances, functions, sets of strings, mistyped values - "
+          "and entry points / declarations with 1-4 comptime parameters) is compiled in K fresh interpreters with "
           "PYTHONHASHSEED 0,1,2 + drawn values and drawn amounts of pre-allocated garbage, plus two interpreters with injected "
           "worklist schedules (descending / hashed block order; only effective while cfg/analysis.py uses hash-ordered sets); outcomes must be identical. non-trivial = accepted program "
           "with a loop or >=2 joins, or any multi-mutation mutant; distinct = distinct source; evaluations = programs (each compiled in "
@@ -524,7 +531,7 @@ SPEC = harness.Spec(
                  "module names and compile order are identical in all interpreters so that definition ids agree"],
     shards={"quick": 3, "thorough": 3},
     budget_s={"quick": 120, "thorough": 900},
-    params={"quick": {"n": 80, "k": 4}, "thorough": {"n": 1500, "k": 6}},
+    params={"quick": {"n": 100, "k": 4}, "thorough": {"n": 1500, "k": 6}},
     min_nontrivial=60,
     needs_guppy=False,
 )
